@@ -253,6 +253,16 @@ func VerifProbeStdlib() {
 		once.Do(func() { calls++ })
 		once.Do(func() { calls++ })
 		nd.Assert(calls == 1, "once")
+	case 28: // range over a string of three arbitrary bytes and strings.Builder.WriteRune against a bytewise reference decoder
+		s3 := nd.StringN("u", 3)
+		var sb strings.Builder
+		n := 0
+		for _, r := range s3 {
+			sb.WriteRune(r)
+			n++
+		}
+		want, wn := probeReencode(s3)
+		nd.Assert(sb.String() == want && n == wn, "utf8-range-and-writerune")
 	case 27: // atomic.Value reinterprets an interface's words through unsafe.Pointer: expected to be *unsupported*
 		var av atomic.Value
 		av.Store(s)
@@ -281,4 +291,53 @@ func probeMax[T cmp.Ordered](a, b T) T {
 func probeNamed(n int) (r int) {
 	defer func() { r++ }()
 	return n
+}
+
+// probeReencode: what ranging over s and re-encoding every rune yields, computed byte by byte (RFC 3629 ranges):
+// a well-formed sequence is copied, any other byte becomes U+FFFD (EF BF BD).
+func probeReencode(s string) (string, int) {
+	out, n := "", 0
+	for i := 0; i < len(s); {
+		c := s[i]
+		size := 0
+		switch {
+		case c < 0x80:
+			size = 1
+		case c >= 0xC2 && c <= 0xDF:
+			if i+1 < len(s) && s[i+1] >= 0x80 && s[i+1] <= 0xBF {
+				size = 2
+			}
+		case c >= 0xE0 && c <= 0xEF:
+			lo, hi := byte(0x80), byte(0xBF)
+			if c == 0xE0 {
+				lo = 0xA0
+			}
+			if c == 0xED {
+				hi = 0x9F
+			}
+			if i+2 < len(s) && s[i+1] >= lo && s[i+1] <= hi && s[i+2] >= 0x80 && s[i+2] <= 0xBF {
+				size = 3
+			}
+		case c >= 0xF0 && c <= 0xF4:
+			lo, hi := byte(0x80), byte(0xBF)
+			if c == 0xF0 {
+				lo = 0x90
+			}
+			if c == 0xF4 {
+				hi = 0x8F
+			}
+			if i+3 < len(s) && s[i+1] >= lo && s[i+1] <= hi && s[i+2] >= 0x80 && s[i+2] <= 0xBF && s[i+3] >= 0x80 && s[i+3] <= 0xBF {
+				size = 4
+			}
+		}
+		if size == 0 {
+			out += "\xef\xbf\xbd"
+			i++
+		} else {
+			out += s[i : i+size]
+			i += size
+		}
+		n++
+	}
+	return out, n
 }
